@@ -49,19 +49,47 @@ func runDFSV(c *Ctx) {
 	hn := core.FuncName(helper)
 	c.R.Func(core.FuncName(DFS), hn)
 
-	// parameters by type: callback (func type), visited (map), vertex hash (interface)
-	var pCB, pVis, pV *ssa.Parameter
-	for _, prm := range helper.Params[1:] {
+	// the traversal state by type: callback (func type), visited (map), vertex hash (interface). Callback and visited
+	// set are either parameters of the helper or fields of one state struct it receives (`type walk struct{g, cb, visited}`).
+	type slot struct {
+		prm   *ssa.Parameter
+		field string // "" = the parameter itself
+	}
+	var sCB, sVis slot
+	var pV *ssa.Parameter
+	first := 0
+	if helper.Signature.Recv() != nil {
+		first = 1
+	}
+	for _, prm := range helper.Params[first:] {
 		switch prm.Type().Underlying().(type) {
 		case *types.Signature:
-			pCB = prm
+			sCB = slot{prm: prm}
 		case *types.Map:
-			pVis = prm
+			sVis = slot{prm: prm}
 		case *types.Interface:
 			pV = prm
 		}
 	}
-	if pCB == nil || pVis == nil || pV == nil {
+	var stateParams []*ssa.Parameter
+	for _, prm := range helper.Params {
+		if st, n := core.StructOf(prm.Type()); st != nil && n != nil && core.NamedOf(prm.Type()) != "graph.Graph" {
+			stateParams = append(stateParams, prm)
+			for i := 0; i < st.NumFields(); i++ {
+				switch st.Field(i).Type().Underlying().(type) {
+				case *types.Signature:
+					if sCB.prm == nil {
+						sCB = slot{prm, core.CanonFieldName(st, i)}
+					}
+				case *types.Map:
+					if sVis.prm == nil {
+						sVis = slot{prm, core.CanonFieldName(st, i)}
+					}
+				}
+			}
+		}
+	}
+	if sCB.prm == nil || sVis.prm == nil || pV == nil {
 		c.R.Undecided("DFSV", "params", hn, p.Pos(helper.Pos()), "helper parameters (callback, visited map, vertex) not recognised")
 		return
 	}
@@ -73,6 +101,23 @@ func runDFSV(c *Ctx) {
 		}
 		return true
 	}
+	isSlot := func(v ssa.Value, sl slot) bool {
+		if sl.field == "" {
+			return isParam(v, sl.prm)
+		}
+		srcs := core.Sources(v)
+		if len(srcs) == 0 {
+			return false
+		}
+		for _, s := range srcs {
+			fr, ok := core.AsFieldLoad(s)
+			if !ok || fr.Field != sl.field || !isParam(fr.Base, sl.prm) {
+				return false
+			}
+		}
+		return true
+	}
+	pCB, pVis := sCB, sVis
 
 	// V7: entry call passes a fresh map and hashcode(start)
 	{
@@ -85,15 +130,48 @@ func runDFSV(c *Ctx) {
 			if call, ok := p.IsHashcodeCall(x); ok && core.Strip(call.Common().Args[0]) == DFS.Params[1] {
 				hashed = true
 			}
+			// a state struct built for this call: its visited field is a fresh map
+			if al, ok := core.Root(x).(*ssa.Alloc); ok && sVis.field != "" {
+				for _, ref := range *al.Referrers() {
+					if fa, ok := ref.(*ssa.FieldAddr); ok {
+						if fr, _ := core.AsFieldAddr(fa); fr.Field == sVis.field {
+							for _, r2 := range *fa.Referrers() {
+								if st, ok := r2.(*ssa.Store); ok {
+									if _, isMk := st.Val.(*ssa.MakeMap); isMk {
+										freshMap = true
+									}
+								}
+							}
+						}
+					}
+				}
+			}
 		}
 		c.R.Add("DFSV", "entry", core.FuncName(DFS), p.InstrPos(entryCall), freshMap && hashed,
 			"DFS starts the helper with a fresh visited set and the hash of the start vertex", fmt.Sprintf("fresh-map=%v hashcode(start)=%v", freshMap, hashed))
 	}
 
+	// state-struct form: the traversal state is set up once by DFS and never re-assigned during the walk
+	if len(stateParams) > 0 && (sCB.field != "" || sVis.field != "") {
+		bad := ""
+		for _, fn := range core.WithNested(helper) {
+			core.Instrs(fn, func(in ssa.Instruction) {
+				if st, ok := in.(*ssa.Store); ok {
+					if fr, ok := core.AsFieldAddr(st.Addr); ok && (fr.Field == sCB.field || fr.Field == sVis.field) {
+						if _, n := core.StructOf(fr.Base.Type()); n != nil && core.NamedOf(fr.Base.Type()) == core.NamedOf(stateParams[0].Type()) {
+							bad = "store to " + fr.Owner + "." + fr.Field + " at " + p.InstrPos(in)
+						}
+					}
+				}
+			})
+		}
+		c.R.Add("DFSV", "state-not-reassigned", hn, p.Pos(helper.Pos()), bad == "", "the callback and the visited set of one traversal are fixed for the whole walk", ternary(bad == "", "no store to the state fields during the walk", bad))
+	}
+
 	// V1: visited[v] stored before successors are iterated
 	var mark *ssa.MapUpdate
 	core.Instrs(helper, func(in ssa.Instruction) {
-		if mu, ok := in.(*ssa.MapUpdate); ok && isParam(mu.Map, pVis) && isParam(mu.Key, pV) {
+		if mu, ok := in.(*ssa.MapUpdate); ok && isSlot(mu.Map, pVis) && isParam(mu.Key, pV) {
 			mark = mu
 		}
 	})
@@ -116,7 +194,7 @@ func runDFSV(c *Ctx) {
 	var cbCall *ssa.Call
 	core.Instrs(helper, func(in ssa.Instruction) {
 		if call, ok := in.(*ssa.Call); ok && !call.Common().IsInvoke() && call.Common().StaticCallee() == nil {
-			if isParam(call.Common().Value, pCB) {
+			if isSlot(call.Common().Value, pCB) {
 				cbCall = call
 			}
 		}
@@ -145,7 +223,7 @@ func runDFSV(c *Ctx) {
 	guarded := false
 	for _, l := range core.Lits(core.Guards(cbCall.Block())) {
 		if l.Kind == "ok" && !l.Pol {
-			if lk, ok := l.Of.(*ssa.Lookup); ok && isParam(lk.X, pVis) && isW(lk.Index) {
+			if lk, ok := l.Of.(*ssa.Lookup); ok && isSlot(lk.X, pVis) && isW(lk.Index) {
 				guarded = true
 			}
 		}
@@ -192,9 +270,13 @@ func runDFSV(c *Ctx) {
 						break
 					}
 					got := res(ra[i])
-					switch prm {
-					case pV:
+					switch {
+					case prm == pV:
 						okAll = isW(got)
+					case prm == sCB.prm && sCB.field == "":
+						okAll = isSlot(got, sCB)
+					case prm == sVis.prm && sVis.field == "":
+						okAll = isSlot(got, sVis)
 					default:
 						okAll = isParam(got, prm)
 					}
@@ -336,10 +418,10 @@ func runKahn(c *Ctx, gf *graphFields) {
 		// push of m guarded by len(in[m]) == 0, evaluated after RemoveEdge
 		core.Instrs(ks, func(in ssa.Instruction) {
 			call, ok := in.(*ssa.Call)
-			if !ok || core.CalleeName(call.Common()) != "builtin.append" {
+			if !ok {
 				return
 			}
-			for _, s := range appendedValues(call) {
+			for _, s := range c.pushedValues(call) {
 				if s != m {
 					continue
 				}
@@ -372,10 +454,10 @@ func runKahn(c *Ctx, gf *graphFields) {
 	// initial work list: keys of the in-adjacency with no entries
 	core.Instrs(ks, func(in ssa.Instruction) {
 		call, ok := in.(*ssa.Call)
-		if !ok || core.CalleeName(call.Common()) != "builtin.append" {
+		if !ok {
 			return
 		}
-		for _, s := range appendedValues(call) {
+		for _, s := range c.pushedValues(call) {
 			e, ok := s.(*ssa.Extract)
 			if !ok || e.Index != 1 {
 				continue
@@ -404,6 +486,37 @@ func runKahn(c *Ctx, gf *graphFields) {
 	c.R.Add("KAHN", "initial-worklist", name, p.Pos(ks.Pos()), initOK, "the work list starts with exactly the vertices whose in-adjacency is empty", fmt.Sprintf("ok=%v", initOK))
 	c.R.Add("KAHN", "emit-once", name, p.Pos(ks.Pos()), appendOK, "each vertex taken from the work list is appended to the order unconditionally, before its out-edges are processed", fmt.Sprintf("ok=%v", appendOK))
 	c.R.Add("KAHN", "push-when-free", name, p.Pos(ks.Pos()), pushOK, "a successor enters the work list only when, after removing the edge, it has no incoming edge left", fmt.Sprintf("ok=%v", pushOK))
+}
+
+// pushedValues: the values a call adds to a list — the elements of a builtin append, or the arguments a private
+// "push" helper appends (a helper whose only calls are appends of its own parameters).
+func (c *Ctx) pushedValues(call *ssa.Call) []ssa.Value {
+	if core.CalleeName(call.Common()) == "builtin.append" {
+		return appendedValues(call)
+	}
+	h := call.Common().StaticCallee()
+	if !c.P.PrivateHelper(h) || len(h.Blocks) != 1 {
+		return nil
+	}
+	var out []ssa.Value
+	for _, ci := range core.Calls(h) {
+		ac, ok := ci.(*ssa.Call)
+		if !ok || core.CalleeName(ac.Common()) != "builtin.append" {
+			return nil
+		}
+		for _, v := range appendedValues(ac) {
+			prm, ok := v.(*ssa.Parameter)
+			if !ok {
+				return nil
+			}
+			for i, q := range h.Params {
+				if q == prm && i < len(call.Common().Args) {
+					out = append(out, core.Strip(call.Common().Args[i]))
+				}
+			}
+		}
+	}
+	return out
 }
 
 // appendedValues returns the element values appended by an append(s, elems...) call
